@@ -13,6 +13,7 @@ T15 number / range patterns are compared with min() / max() of the matched numbe
 T16 type definitions: duplicated struct fields are rejected; self-containing struct / enum definitions are rejected before any function body is checked
 T17 const definitions: the declared type is resolved before it is registered; a value provided by a party is registered with one type
 T19 the parser reports a second top-level definition of the same name (const / struct / enum / fn) instead of replacing the first
+T20 the arity test of a call compares the parameter count with a list holding one entry per written argument (never a list filled under zip)
 T12 a block takes the type of its last statement only (assigned on the `index == len - 1` edge, or afresh for every statement)
 T11 max / min / + / - const expressions are only accepted for consts whose declared type is examined (numeric)
 T9  const expressions are checked against the consts defined before them (a local map filled in source order), never against the
@@ -1174,11 +1175,43 @@ def rule_t16(ctx):
                         "no RecursiveTypeDef error is constructed: `struct S { a: S }` passes the checker and the size computation / exhaustiveness check recurse until the stack overflows", f["sp"]))
         return res
     # the test is a call of a recursive helper over the definitions
-    helpers = set()
-    for b, t in body.calls():
-        cal = mir.callee(t) or ""
-        if ctx.has_fn(cal) and cal in ctx.cg.reach_set({cal}) and any(cal == (mir.callee(tt) or "") for _, tt in ctx.body(cal).calls()):
-            helpers.add(b)
+    helpers = set()         # blocks that run the recursive walk whose answer decides about the RecursiveTypeDef error
+    walk_closures = {}
+    for sb in range(body.n):
+        st_ = body.term(sb)
+        if not st_ or st_["k"] != "switch" or st_["discr"]["k"] not in ("copy", "move") or not any(body.dominates(sb, x) for x in rec):
+            continue
+        for (r, p) in body.trace(st_["discr"]["place"], through={}):
+            if r[0] != "call":
+                continue
+            c = body.term(r[1])
+            cal = mir.callee(c) or ""
+            def recursive(fid):
+                """fid can reach a call of itself (directly or through the closures it defines)"""
+                if not ctx.has_fn(fid):
+                    return False
+                seen, work = set(), [fid]
+                while work:
+                    x = work.pop()
+                    nxt = set(ctx.cg.closures_of.get(x, ())) | {y for y in ctx.cg.edges.get(x, ()) if ctx.has_fn(y)}
+                    if fid in nxt:
+                        return True
+                    for y in nxt:
+                        if y not in seen and len(seen) < 200:
+                            seen.add(y)
+                            work.append(y)
+                return False
+            if recursive(cal):
+                helpers.add(r[1])
+            for a in c["args"]:
+                if a["k"] in ("copy", "move"):
+                    for (rr, pp) in body.trace(a["place"], through={}):
+                        if rr[0] == "agg":
+                            agg = body.blocks[rr[1]]["stmts"][rr[2]]["rv"]
+                            clo = agg.get("closure")
+                            if clo and ctx.has_fn(clo) and any(recursive(mir.callee(tt) or "") for _, tt in ctx.body(clo).calls()):
+                                helpers.add(r[1])
+                                walk_closures[r[1]] = agg
     # every path from the detection loop to the function checker passes the `found some` test whose true edge returns
     guards = set()
     for b in range(body.n):
@@ -1202,6 +1235,24 @@ def rule_t16(ctx):
                             if mir.last_seg(mir.callee(pt) or "") == "push" and {rr for (rr, pp) in body.trace(pt["args"][0]["place"])} == vec_roots and \
                                     any(rr[0] == "agg" for (rr, pp) in body.deep_sources(pt["args"][1], depth=3)) and any(body.dominates(x, pb) or x == pb for x in rec):
                                 guards.add(b)
+    # the walk for one definition must not be cut short by what was visited for another: the visited-set handed to the recursive
+    # helper is created inside the loop over the definitions
+    for hb_ in sorted(helpers):
+        ht = body.term(hb_)
+        sets = [a for a in ht["args"] if a["k"] in ("copy", "move") and "HashSet" in a["place"]["ty"]]
+        if hb_ in walk_closures:
+            sets += [o for o in walk_closures[hb_]["ops"] if o["k"] in ("copy", "move") and "HashSet" in o["place"]["ty"]]
+        for a in sets:
+            news = [r for (r, p) in body.trace(a["place"]) if r[0] == "call" and mir.last_seg(str(r[2])) in ("new", "with_capacity", "default")]
+            lps = [l for l in body.loops() if hb_ in l["body"]]
+            if news and lps:
+                lp_ = min(lps, key=lambda l: len(l["body"]))
+                if all(r[1] in lp_["body"] for r in news):
+                    res.ok({"clause": "visited set", "verdict": "fresh for every definition"})
+                else:
+                    res.bad(Finding("T16", f["id"], "one visited-set shared by the walks of all definitions",
+                                    "types visited while an earlier definition was examined are skipped for the later ones: a cycle that is first reached from outside "
+                                    "(`struct C { a: A } enum A { X(B), Y } enum B { X(A), Y }`) is never found, and check / compile overflow the stack", body.term(news[0][1])["sp"]))
     if not helpers:
         res.bad(Finding("T16", f["id"], "recursive type definitions: no traversal of the definitions", "the RecursiveTypeDef error does not depend on a recursive walk over the field types", f["sp"]))
     elif not guards:
@@ -1325,5 +1376,86 @@ def rule_t19(ctx):
     return res
 
 
+def rule_t20(ctx):
+    """`a wrong number of arguments`: the number of arguments written in the call is compared with the number of parameters.  The
+    compared list must hold one entry per written argument - a list that was filled while zipping the arguments with the
+    parameters has already been cut to the shorter of the two."""
+    res = RuleResult("T20", "the arity test of a call compares the parameter count with a list that has one entry per written argument")
+    f = expr_tc(ctx)
+    body = ctx.body(f["id"])
+    succ = body.pruned_succ({INNER: "FnCall"})
+    region = set(body.reachable([0], succ=succ))
+    errs = [b for b in region for st in body.blocks[b]["stmts"] if st["k"] == "assign" and st["rv"]["k"] == "aggregate" and st["rv"].get("variant") == "WrongNumberOfArgs"]
+    if not errs:
+        raise AnchorMissing("T20: the FnCall arm constructs no WrongNumberOfArgs error")
+
+    def list_kind(op):
+        """'args' (the node's argument list), 'params', 'per-arg' (filled once per written argument), 'zipped' or '?'"""
+        roots = body.trace_operand(op) if op["k"] in ("copy", "move") else set()
+        kinds = set()
+        for (r, p) in roots:
+            if r[0] == "call" and mir.last_seg(str(r[2])) == "len":
+                c = body.term(r[1])
+                for (rr, pp) in body.trace_operand(c["args"][0]):
+                    if rr == SELF1 and "as FnCall" in pp and pp[pp.index("as FnCall") + 1:pp.index("as FnCall") + 2] == ("1",):
+                        kinds.add("args")
+                    elif "params" in pp:
+                        kinds.add("params")
+                    elif rr[0] == "call" and mir.last_seg(str(rr[2])) in ("new", "with_capacity"):
+                        # a local list: look at the loops that push into it
+                        k = "?"
+                        for pb, pt in body.calls():
+                            if mir.last_seg(mir.callee(pt) or "") != "push" or not any(x == rr for (x, y) in body.trace_operand(pt["args"][0])):
+                                continue
+                            lps = [l for l in body.loops() if pb in l["body"]]
+                            if not lps:
+                                k = "?"
+                                break
+                            lp = min(lps, key=lambda l: len(l["body"]))
+                            nexts = [body.term(x) for x in lp["body"] if body.term(x) and body.term(x)["k"] == "call" and mir.last_seg(mir.callee(body.term(x)) or "") == "next"]
+                            srcs = set()
+                            zipped = False
+                            for nt in nexts:
+                                if "Zip" in nt["args"][0]["place"]["ty"]:
+                                    zipped = True
+                                for (r3, p3) in body.deep_sources(nt["args"][0], 3):
+                                    if r3 == SELF1 and "as FnCall" in p3 and p3[p3.index("as FnCall") + 1:p3.index("as FnCall") + 2] == ("1",):
+                                        srcs.add("args")
+                                    elif "params" in p3:
+                                        srcs.add("params")
+                            if zipped:
+                                k = "zipped"
+                                break
+                            k = "per-arg" if srcs == {"args"} else ("params" if srcs == {"params"} else "?")
+                        kinds.add(k)
+        return kinds
+    n = 0
+    for eb in errs:
+        # the comparison that leads here
+        for b in range(body.n):
+            t = body.term(b)
+            if not t or t["k"] != "switch" or t["discr"]["k"] not in ("copy", "move") or not body.dominates(b, eb):
+                continue
+            for (r, p) in body.trace(t["discr"]["place"], through={}):
+                if r[0] == "rv" and r[1] == "binop":
+                    rv = body.blocks[r[2]]["stmts"][r[3]]["rv"]
+                    if rv["op"] not in ("Ne", "Eq", "Lt", "Gt", "Le", "Ge"):
+                        continue
+                    ks = [list_kind(rv["l"]), list_kind(rv["r"])]
+                    if not any(ks):
+                        continue
+                    n += 1
+                    flat = ks[0] | ks[1]
+                    if "zipped" in flat:
+                        res.bad(Finding("T20", f["id"], "arity compared on a list that was cut by zip",
+                                        "the list whose length is compared with the parameter count was filled while iterating over `args.iter().zip(params)`: surplus arguments never enter it, "
+                                        "so `add(x, y, nope)` for `fn add(a: u8, b: u8)` is accepted (and `nope` is never checked)", rv.get("sp") or body.term(b)["sp"]))
+                    elif flat & {"args", "per-arg"} and "params" in flat:
+                        res.ok({"verdict": "parameter count compared with %s" % sorted(flat - {"params"})})
+    if (n == 0 or res.obligations == 0) and not res.findings:
+        raise AnchorMissing("T20: no comparison of the parameter count with the argument list leads to WrongNumberOfArgs")
+    return res
+
+
 def run(ctx):
-    return ctx.run_rules([rule_t1, rule_t2, rule_t3, rule_t4, rule_t5, rule_t6, rule_t7, rule_t8, rule_t9, rule_t10, rule_t11, rule_t12, rule_t13, rule_t14, rule_t15, rule_t16, rule_t17, rule_t19])
+    return ctx.run_rules([rule_t1, rule_t2, rule_t3, rule_t4, rule_t5, rule_t6, rule_t7, rule_t8, rule_t9, rule_t10, rule_t11, rule_t12, rule_t13, rule_t14, rule_t15, rule_t16, rule_t17, rule_t19, rule_t20])
